@@ -21,6 +21,8 @@ the reconstruction heuristics themselves are NOT decided):
          a valid expression node; the source regenerator and the SQL translator take it for its plain value, so f'{x!r}' or
          f'{y:.2f}' alone silently lose their conversion / format (the FORMAT_VALUE flag bits are all decoded: 3 conversion
          values x optional spec).
+ POLARITY conditional_jump_new and simplify() interpreted together over (kind of jump x sense): a one-item clause simplifies to the condition under
+         which control goes on towards the loop body (x / not x), for jumps to the body and for jumps away from it alike.
  PIN     the syntax-tree cache is keyed by get_codeobject_id, which keeps the code object alive, so a recycled id() can
          never serve another lambda's tree (shared with C05).
 """
@@ -219,8 +221,130 @@ def run(ctx):
            '' if not wrong else 'the decoder and the compiler disagree about variable names: %s -- the reconstructed expression uses other variables than the source' % '; '.join(wrong[:3]),
            node=branch)
 
+    # ---------------------------------------------------------------- POLARITY
+    # A conditional jump leaves a one-item and/or clause on the stack; when nothing is merged into it (the arm of a conditional expression ends
+    # there), simplify() turns it into its value.  That value must be the condition under which control goes on *towards the loop body*:
+    #   a jump to the body itself (an "or-jump", success):        x if the jump is taken on true, not x if taken on false
+    #   a jump away from it (and-jump, or the last jump back to the loop head):   not x if taken on true, x if taken on false
+    # The two functions are interpreted together over the six scenarios (kind of jump x sense): negations applied by conditional_jump_new
+    # and by simplify() must add up to that.  (`(a if b else c) or d` used to come back as `(not a if b else c) or d`.)
+    from ..typestate import scenario_edges, eval_test
+    cj = repo.fn(DC, 'Decompiler.conditional_jump_new'); gj = cg.cfg(cj)
+    sf = repo.fn(DC, 'simplify'); gs = cg.cfg(sf)
+    recv = cj.recv; sense = cj.params[2]
+    def is_not_node(v): return isinstance(v, ast.Call) and dotted(v.func) == 'ast.UnaryOp' and any(k.arg == 'op' and 'Not' in norm(k.value) for k in v.keywords)
+    marks = {}            # attribute of the clause set by conditional_jump_new -> expression
+    for st in walk_no_nested(cj.node):
+        if isinstance(st, ast.Assign) and len(st.targets) == 1 and isinstance(st.targets[0], ast.Attribute) and dotted(st.targets[0].value) == 'clause' and st.targets[0].attr != 'endpos':
+            marks[st.targets[0].attr] = st.value
+    npol = 0
+    for kind in ('final', 'or', 'and'):
+        for taken_on_true in (True, False):
+            def atom(text, node, kind=kind, t=taken_on_true):
+                tt = text.replace(' ', '')
+                if tt == '%s.pos>=%s.conditions_end' % (recv, recv): return kind == 'final'
+                if tt == '%s.pos<%s.conditions_end' % (recv, recv): return kind != 'final'
+                if tt == '%s.posin%s.or_jumps' % (recv, recv): return kind == 'or'
+                if isinstance(node, ast.Name) and node.id == sense: return t
+                return None
+            eo = scenario_edges(gj, cj.node, atom, resolve=False)
+            live = gj.reach([gj.entry], edge_ok=eo)
+            types = {norm(x.ast.value) for x in gj.nodes if x.id in live and x.kind == 'stmt' and isinstance(x.ast, ast.Assign) and any(dotted(t_) == 'clausetype' for t_ in x.ast.targets)}
+            ctypes = set()
+            for tx in types:
+                if tx in ('ast.Or', 'ast.And'): ctypes.add(tx[4:])
+                elif 'if' in tx:                                         # clausetype = ast.Or if if_true else ast.And
+                    e_ = [x.ast.value for x in gj.nodes if x.id in live and x.kind == 'stmt' and isinstance(x.ast, ast.Assign) and norm(x.ast.value) == tx][0]
+                    v_ = eval_test(e_.test, atom)
+                    ctypes.add(norm(e_.body if v_ else e_.orelse)[4:] if v_ is not None else '?')
+            neg_cj = [x for x in gj.nodes if x.id in live and x.kind == 'stmt' and isinstance(x.ast, ast.Assign) and is_not_node(x.ast.value)]
+            ctx.need(len(ctypes) == 1 and '?' not in ctypes and len(neg_cj) <= 1, 'C03-POLARITY: conditional_jump_new not interpretable for a %s-jump taken on %s: clause types %s' % (kind, taken_on_true, sorted(ctypes)))
+            ctype = ctypes.pop()
+            mark_vals = {m_: eval_test(e_, atom) for m_, e_ in marks.items()}
+            def atom_s(text, node, ctype=ctype, mark_vals=mark_vals):
+                if isinstance(node, ast.Call) and dotted(node.func) == 'isinstance' and len(node.args) == 2:
+                    what = norm(node.args[1])
+                    if what == 'ast.BoolOp': return True
+                    if what in ('ast.And', 'ast.Or'): return what[4:] == ctype
+                if isinstance(node, ast.Call) and dotted(node.func) == 'getattr' and len(node.args) >= 2 and isinstance(node.args[1], ast.Constant):
+                    return mark_vals.get(node.args[1].value, False) if mark_vals.get(node.args[1].value, False) is not None else None
+                if isinstance(node, ast.Attribute) and node.attr in mark_vals: return mark_vals[node.attr]
+                if isinstance(node, ast.Compare) and norm(node).replace(' ', '').startswith('len(clause.values)'): return eval('1' + norm(node).replace(' ', '')[len('len(clause.values)'):], {})
+                return None
+            eos = scenario_edges(gs, sf.node, atom_s, resolve=False)
+            lives = gs.reach([gs.entry], edge_ok=eos)
+            res = [x for x in gs.nodes if x.id in lives and x.kind == 'stmt' and isinstance(x.ast, ast.Assign) and any(dotted(t_) == 'result' for t_ in x.ast.targets)]
+            ctx.need(len(res) == 1, 'C03-POLARITY: simplify() not interpretable for a one-item %s clause (%d reachable results)' % (ctype, len(res)))
+            neg_s = is_not_node(res[0].ast.value)
+            negated = bool(neg_cj) != neg_s
+            want = (not taken_on_true) if kind == 'or' else taken_on_true
+            npol += 1
+            ctx.ob('C03-POLARITY.one-item-clause-means-the-condition-to-go-on', cj, res[0].ast, negated == want,
+                   '' if negated == want else 'a %s taken on %s leaves %s[x]%s; simplify() turns a one-item %s clause into %s: the arm of a conditional expression that ends '
+                   'in this jump comes back as `%s` where the source means `%s` (e.g. `(a if b else c) or d` -> `(not a if b else c) or d`)'
+                   % ({'or': 'jump to the loop body', 'and': 'jump away from the body', 'final': 'last jump back to the loop head'}[kind], taken_on_true, ctype,
+                      ' with x negated' if neg_cj else '', ctype, 'not x' if neg_s else 'x', 'not x' if negated else 'x', 'not x' if want else 'x'), node=res[0].ast).key += '::%s::%s' % (kind, taken_on_true)
+    # the sibling for `is None` jumps (POP_JUMP_IF_NONE / _NOT_NONE): the clause item is a comparison `x is None` / `x is not None` chosen through
+    # `negate`; J = the condition under which the jump is taken.  Same requirement: a jump to the body leaves J, a jump away from it leaves not J.
+    cn = repo.fn(DC, 'Decompiler.conditional_jump_none_impl'); gn = cg.cfg(cn)
+    nsense = cn.params[2]
+    nmarks = {st.targets[0].attr: st.value for st in walk_no_nested(cn.node) if isinstance(st, ast.Assign) and len(st.targets) == 1 and isinstance(st.targets[0], ast.Attribute)
+              and dotted(st.targets[0].value) == 'clause' and st.targets[0].attr != 'endpos'}
+    for kind in ('or', 'and'):
+        for negate in (False, True):
+            def atom_n(text, node, kind=kind, negate=negate):
+                tt = text.replace(' ', '')
+                if tt == '%s.posin%s.or_jumps' % (cn.recv, cn.recv): return kind == 'or'
+                if tt == '%s.pos<%s.conditions_end' % (cn.recv, cn.recv): return True
+                if isinstance(node, ast.Name) and node.id == nsense: return negate
+                return None
+            eon = scenario_edges(gn, cn.node, atom_n, resolve=False)
+            liven = gn.reach([gn.entry], edge_ok=eon)
+            def pick(var):
+                vals = set()
+                for x in gn.nodes:
+                    if x.id in liven and x.kind == 'stmt' and isinstance(x.ast, ast.Assign) and any(dotted(t_) == var for t_ in x.ast.targets):
+                        v = x.ast.value
+                        if isinstance(v, ast.IfExp):
+                            tv = eval_test(v.test, atom_n)
+                            v = None if tv is None else (v.body if tv else v.orelse)
+                        vals.add(norm(v) if v is not None else '?')
+                return vals
+            cts, ops = pick('clausetype'), pick('op')
+            ctx.need(len(cts) == 1 and len(ops) == 1 and '?' not in cts | ops, 'C03-POLARITY: conditional_jump_none_impl not interpretable (%s, negate=%s): %s %s' % (kind, negate, cts, ops))
+            ctype = cts.pop()[4:]; opn = ops.pop()[4:]
+            item_is_J = (opn == 'IsNot') == negate
+            mark_vals = {m_: eval_test(e_, atom_n) for m_, e_ in nmarks.items()}
+            def atom_s2(text, node, ctype=ctype, mark_vals=mark_vals):
+                if isinstance(node, ast.Call) and dotted(node.func) == 'isinstance' and len(node.args) == 2:
+                    what = norm(node.args[1])
+                    if what == 'ast.BoolOp': return True
+                    if what in ('ast.And', 'ast.Or'): return what[4:] == ctype
+                if isinstance(node, ast.Call) and dotted(node.func) == 'getattr' and len(node.args) >= 2 and isinstance(node.args[1], ast.Constant): return mark_vals.get(node.args[1].value, False)
+                if isinstance(node, ast.Attribute) and node.attr in mark_vals: return mark_vals[node.attr]
+                if isinstance(node, ast.Compare) and norm(node).replace(' ', '').startswith('len(clause.values)'): return eval('1' + norm(node).replace(' ', '')[len('len(clause.values)'):], {})
+                return None
+            lives = gs.reach([gs.entry], edge_ok=scenario_edges(gs, sf.node, atom_s2, resolve=False))
+            res = [x for x in gs.nodes if x.id in lives and x.kind == 'stmt' and isinstance(x.ast, ast.Assign) and any(dotted(t_) == 'result' for t_ in x.ast.targets)]
+            ctx.need(len(res) == 1, 'C03-POLARITY: simplify() not interpretable for a one-item %s clause' % ctype)
+            value_is_J = item_is_J != is_not_node(res[0].ast.value)
+            want_J = kind == 'or'
+            npol += 1
+            ctx.ob('C03-POLARITY.one-item-clause-means-the-condition-to-go-on', cn, res[0].ast, value_is_J == want_J,
+                   '' if value_is_J == want_J else 'an `is None` jump (%s, negate=%s) leaves %s[x %s None]; simplify() %s it: the arm of a conditional expression that ends in this jump '
+                   'comes back negated (`((a is None) if b else c) or d` -> `(not a is None if b else c) or d`)'
+                   % ('to the loop body' if kind == 'or' else 'away from the body', negate, ctype, 'is not' if opn == 'IsNot' else 'is', 'negates' if is_not_node(res[0].ast.value) else 'keeps'),
+                   node=res[0].ast).key += '::none::%s::%s' % (kind, negate)
+    ctx.floor('C03-POLARITY', npol, 10, '(kind of jump, sense) scenarios')
+
 
 MUTANTS = [
+    dict(id='C03-pol1', file='pony/orm/decompiling.py', fn='simplify', old="            if getattr(clause, 'or_jump', False): result = clause.values[0]  # the polarity of an or-jump is settled where it is decompiled\n            else: result = ast.UnaryOp(op=ast.Not(), operand=clause.values[0])",
+         new="            result = ast.UnaryOp(op=ast.Not(), operand=clause.values[0])", expect='C03-POLARITY'),
+    dict(id='C03-pol2', file='pony/orm/decompiling.py', fn='Decompiler.conditional_jump_none_impl', old="        clause.or_jump = decompiler.pos in decompiler.or_jumps\n", new="", expect='C03-POLARITY'),
+    dict(id='C03-pol3', file='pony/orm/decompiling.py', fn='Decompiler.conditional_jump_new', old="            if if_true:\n                expr = ast.UnaryOp(op=ast.Not(), operand=expr)", new="            if not if_true:\n                expr = ast.UnaryOp(op=ast.Not(), operand=expr)", expect='C03-POLARITY'),
+    dict(id='C03-pol4', file='pony/orm/decompiling.py', fn='simplify', old="            if getattr(clause, 'or_jump', False): result = clause.values[0]  # the polarity of an or-jump is settled where it is decompiled\n            else: result = ast.UnaryOp(op=ast.Not(), operand=clause.values[0])",
+         new="            if not getattr(clause, 'or_jump', False): result = ast.UnaryOp(op=ast.Not(), operand=clause.values[0])\n            else: result = clause.values[0]", benign=True),
     dict(id='C03-free', file='pony/orm/decompiling.py', fn='Decompiler.get_instructions', old="                        arg = [localsplus[oparg]]", new="                        arg = [free[oparg - len(code.co_varnames)]]", expect='C03-FREEVAR'),
     dict(id='C03-free2', file='pony/orm/decompiling.py', fn='Decompiler.get_instructions', old="                        arg = [localsplus[oparg]]", new="                        arg = [(code.co_varnames + tuple(c for c in code.co_cellvars if c not in code.co_varnames) + code.co_freevars)[oparg]]", expect='C03-FREEVAR', benign=True),
     dict(id='C03-l1', file='pony/orm/decompiling.py', fn='Decompiler.process_target', old="            reached_limit = top is limit  # simplify() may replace a one-item clause with its item\n            top = simplify(top)\n            if reached_limit or top is limit:", new="            top = simplify(top)\n            if top is limit:", expect='C03-LIMIT'),
